@@ -173,19 +173,23 @@ def check_call_join(P, ctx):
             ok = ok and okb
         ctx.check(ok, rule, 'Mutex_%s' % what, site(fn), '%s is %s on the object\'s own mutex, on every path' % (m, lib))
     fn = P.fn(P.slot('Mutex', 'Lock', 'trylock'))
-    g = P.cfg(fn)
-    N = util.Norm(P, fn)
-    rets = [n for n in g.live() if n['kind'] == 'ret']
-    busy = [n for n in g.live() if n['kind'] == 'cond' and N.canon(n['expr'])[0] == 'bin' and N.canon(n['expr'])[1] == '==' and any(util.const_int(x) == 16 for x in (N.canon(n['expr'])[2], N.canon(n['expr'])[3]))]
-    ok = len(busy) == 1
-    if ok:
-        for r in rets:
-            v = util.const_int(r['expr'])
-            if v == 0:
-                ok = ok and g.must_pass(r['id'], through_edges=[(busy[0]['id'], True)])
-            else:
-                ok = ok and v == 1 and g.must_pass(r['id'], through_edges=[(busy[0]['id'], False)])
-    ctx.check(ok, rule, 'Mutex_trylock:result', site(fn), 'trylock reports failure exactly when pthread_mutex_trylock returned EBUSY')
+    from . import cint
+    ok, detail = True, []
+    for err, want in ((0, ('ret', 1)), (16, ('ret', 0))):          # 16: EBUSY
+        def call(nm, e, it, err=err):
+            if nm == 'pthread_mutex_trylock':
+                return err
+            if nm == 'cast':
+                return it.ev(e[2][0])
+            raise cint.NoEval('call %s' % nm)
+        r = cint.CInt(P, fn, call=call).run([5000])
+        if r[0] == 'stuck':
+            ok = False
+            detail.append('not evaluated: %s' % r[1])
+        elif (r[0], r[1]) != want:
+            ok = False
+            detail.append('pthread_mutex_trylock returning %s: %s' % ('EBUSY' if err else '0', 'returns %s' % (r[1],) if r[0] == 'ret' else 'does not return'))
+    ctx.check(ok, rule, 'Mutex_trylock:result', site(fn), 'trylock reports failure when pthread_mutex_trylock returned EBUSY and success when it returned 0 (evaluated)', detail)
     ok = P.slot('Mutex', 'Start', 'start') == P.slot('Mutex', 'Lock', 'lock') and P.slot('Mutex', 'Start', 'stop') == P.slot('Mutex', 'Lock', 'unlock')
     ctx.check(ok, rule, 'Mutex:with', 'src/Thread.c', 'a with block on a Mutex locks on entry and unlocks on exit (the Start slots are the lock/unlock functions)')
     ctx.floor(rule, 7)
